@@ -397,6 +397,8 @@ func init() {
 			return map[string]any{"writer_sequence_depth": c02Depth(tier), "sessions": len(c02Sessions(tier))}
 		},
 		RequiredOutcomes: []string{"writer", "session+write-faults", "error-shapes"},
+		// schedule part: Close racing a connection that is half-way through a message (scenarios W1/W2: the row value yields to the scheduler while its DataRow frame is half built)
+		After: explore.MergeSched("C02", false),
 	})
 }
 
